@@ -32,6 +32,8 @@ type World struct {
 	structDT  map[string]*smt.Sort
 
 	Contracts    map[*ssa.Function]*Contract // by target function
+	Overlay      map[string][]byte           // contract files with prelude and harnesses (what was analysed)
+	Repo         string
 	ExtContracts map[*ssa.Function]map[string]*Contract // contracts on functions of other packages, by stating package
 	ByOrigin     map[*ssa.Function]*ssa.Function // generic origin -> instantiation that has a contract
 	IfaceCons    map[string]*Contract        // by "pkg.Iface.Method"
